@@ -251,6 +251,29 @@ func Seed(env *world.Env, name string) *world.World {
 		if env.Cfg.NumShards > 1 {
 			b.Must(PauseCall(1, vmcommon.BuiltInFunctionESDTPause, F))
 		}
+	case "refunds":
+		// mixed, plus one refused delivery of each transfer function: three refunds in flight
+		b.fung().sft()
+		b.Must(ESDTTransfer(A0, S1c, F, 1))
+		b.Must(NFTTransfer(A0, S1c, S, 1, 1))
+		b.Must(Multi(A0, S1c, []Ent{{Tok: F, Nonce: 0, Q: 1}, {Tok: S, Nonce: 2, Q: 1}}))
+		for i := 0; i < 3; i++ {
+			// deliveries to the non-payable contract s1 fail and are answered by refunds
+			idx := -1
+			for j, m := range b.W.Inflight {
+				if !m.Refund {
+					idx = j
+				}
+			}
+			if idx < 0 {
+				panic("seed refunds: no message to deliver")
+			}
+			nw, legs := b.Env.Step(b.W, Deliver(idx))
+			if legs[0].OK() || legs[0].Refund == nil {
+				panic("seed refunds: delivery to the non-payable contract was expected to fail with a refund")
+			}
+			b.W = nw
+		}
 	case "handover":
 		b.sft()
 		b.Must(SysCall(A0, vmcommon.BuiltInFunctionESDTNFTCreateRoleTransfer, S, C1))
